@@ -410,14 +410,35 @@ def load_and_use(data: bytes, base_pool=None, base_ok=frozenset(), full=False):
             memo = tuple(pool) == base_pool
         except AttributeError:
             memo = False
+    from pyoda_time.utility import InvalidPyodaDataError
+    first_err = None
     for id_ in ids:
         if memo:
             canonical = src.canonical_id_map.get(id_)
             field = zf.get(canonical) if canonical else None
             if field is not None and (id_, _field_bytes(field)) in base_ok:
                 continue
-        src.for_id(id_)
+        # EVERY fetch must work or raise the documented error - also the fetches after a rejected one, a second
+        # fetch of a rejected id, and the aliases of a rejected zone (state kept between fetches must not change
+        # the error type): so the loop goes on after InvalidPyodaDataError and asks a rejected id again
+        try:
+            src.for_id(id_)
+        except InvalidPyodaDataError as e:
+            if first_err is None:
+                first_err = e
+            try:
+                src.for_id(id_)
+            except InvalidPyodaDataError:
+                pass
+            else:
+                raise _Inconsistent(f"for_id({id_!r}) raised InvalidPyodaDataError first and returned a zone when asked again")
+    if first_err is not None:
+        raise first_err
     return len(ids)
+
+
+class _Inconsistent(Exception):
+    """a fetch that was rejected succeeded when repeated"""
 
 
 def eval_fault(arg):
